@@ -161,14 +161,73 @@ func rulesTranslate(c *Ctx, r *Report, g *ssa.Global, codon map[[3]int64]int64) 
 			}
 		}
 	})
+	// the lookup (and the panic on a miss) in a helper that receives the codon by value
+	var lkSite ssa.Instruction // where, in Translate, the lookup happens
+	var lkVal ssa.Value        // the looked-up letter as Translate sees it
+	var buf *ssa.Alloc
+	if lk == nil {
+		instrs(f, func(in ssa.Instruction) {
+			cl, ok := in.(*ssa.Call)
+			if !ok || lk != nil {
+				return
+			}
+			h := cl.Call.StaticCallee()
+			if h == nil || h.Blocks == nil || !c.inModule(h) {
+				return
+			}
+			for i, a := range cl.Call.Args {
+				ld, ok := a.(*ssa.UnOp)
+				if !ok || ld.Op != token.MUL || i >= len(h.Params) {
+					continue
+				}
+				al, ok := ld.X.(*ssa.Alloc)
+				if !ok {
+					continue
+				}
+				// the helper's spilled copy of that parameter is the lookup key
+				var found *ssa.Lookup
+				instrs(h, func(in2 ssa.Instruction) {
+					if l, ok := in2.(*ssa.Lookup); ok {
+						if gg, ok := loadedGlobal(l.X); ok && gg == g {
+							if kl, ok := l.Index.(*ssa.UnOp); ok && kl.Op == token.MUL {
+								if cell, ok := kl.X.(*ssa.Alloc); ok && cellValue(cell) == ssa.Value(h.Params[i]) {
+									found = l
+								}
+							} else if l.Index == ssa.Value(h.Params[i]) {
+								found = l
+							}
+						}
+					}
+				})
+				if found == nil {
+					continue
+				}
+				// every return of the helper hands back the looked-up value
+				okRet := true
+				instrs(h, func(in2 ssa.Instruction) {
+					if rt, ok := in2.(*ssa.Return); ok {
+						if ops := retOperands(rt); len(ops) != 1 || ops[0] != ssa.Value(found) {
+							okRet = false
+						}
+					}
+				})
+				if okRet {
+					lk, buf, lkSite, lkVal = found, al, cl, cl
+					r.analysed(fname(h))
+				}
+			}
+		})
+	}
 	if lk == nil {
 		r.undecided("VSA-TR", where, "lookup", c.pos(f.Pos()), "no lookup in codonToAmino found")
 		return
 	}
-	keyLd, _ := lk.Index.(*ssa.UnOp)
-	var buf *ssa.Alloc
-	if keyLd != nil && keyLd.Op == token.MUL {
-		buf, _ = keyLd.X.(*ssa.Alloc)
+	if lkSite == nil {
+		lkSite, lkVal = lk, lk
+		keyLd, _ := lk.Index.(*ssa.UnOp)
+		if keyLd != nil && keyLd.Op == token.MUL {
+			buf, _ = keyLd.X.(*ssa.Alloc)
+		}
 	}
 	if buf == nil {
 		r.undecided("VSA-TR", where, "key", c.pos(lk.Pos()), "lookup key is not a local 3-byte buffer")
@@ -278,7 +337,7 @@ func rulesTranslate(c *Ctx, r *Report, g *ssa.Global, codon map[[3]int64]int64) 
 			if cl, ok := ref.(*ssa.Call); ok {
 				if g := cl.Call.StaticCallee(); g != nil && g.Blocks != nil && c.inModule(g) {
 					for i, a := range cl.Call.Args {
-						if a == ssa.Value(buf) && i < len(g.Params) && instrDominates(cl, lk) && instrDominates(cp, cl) {
+						if a == ssa.Value(buf) && i < len(g.Params) && instrDominates(cl, lkSite) && instrDominates(cp, cl) {
 							foldFn, foldBuf = g, g.Params[i]
 							r.analysed(fname(g))
 						}
@@ -295,7 +354,7 @@ func rulesTranslate(c *Ctx, r *Report, g *ssa.Global, codon map[[3]int64]int64) 
 				continue
 			}
 			cl, ok := st.Val.(*ssa.Call)
-			if !ok || !instrDominates(cp, cl) || !instrDominates(st, lk) {
+			if !ok || !instrDominates(cp, cl) || !instrDominates(st, lkSite) {
 				continue
 			}
 			g := cl.Call.StaticCallee()
@@ -396,7 +455,7 @@ func rulesTranslate(c *Ctx, r *Report, g *ssa.Global, codon map[[3]int64]int64) 
 								for _, r2 := range *ia.Referrers() {
 									if st, ok := r2.(*ssa.Store); ok {
 										n++
-										if st.Val == ssa.Value(lk) {
+										if st.Val == lkVal {
 											nLk++
 										}
 									}
